@@ -160,7 +160,8 @@ def crash_sweep(earlier, rows, cols):
             return [{"what": "the uninterrupted save failed in the child", "rc": rc}]
         points = int(open(cf).read())
         new_bytes = open(os.path.join(ref, "data.json"), "rb").read()
-        for k in range(points):
+        ks = range(points) if points <= 160 else _pick(points, 160)      # many write chunks: first/last 20 and an even sample
+        for k in ks:
             for flush in (False, True, "interrupt"):
                 d = os.path.join(base, f"k{k}{'f' if flush is True else 'i' if flush else ''}")
                 shutil.copytree(pre, d)
@@ -171,6 +172,7 @@ def crash_sweep(earlier, rows, cols):
                     bad.append({"kill_point": k, "flushed_before_kill": flush, "child_exit": rc,
                                 "file": "missing" if now is None else f"{len(now)} bytes",
                                 "old": None if old_bytes is None else len(old_bytes), "new": len(new_bytes)})
+                shutil.rmtree(d, ignore_errors=True)
     finally:
         shutil.rmtree(base, ignore_errors=True)
     return bad
